@@ -24,9 +24,9 @@ PENDING = "claimed in DESIGN.md; its simulator is not built yet in this commit, 
 
 CHECKS = {
  "C16": dict(engine="qsworld", category="exploration", design_ref="DESIGN.md 3.1-3.3",
-   technique="deterministic simulation: real gevent queue server on fake sockets under a seeded scheduler with fault injection (disconnects, stalled ticks, clock jumps, multi-event quanta); conservation invariants at every quiescent point + drain liveness; ddmin-minimised replay files",
+   technique="deterministic simulation: real gevent queue server on fake sockets under a seeded scheduler with fault injection (disconnects, connection resets, pipelined requests, stalled ticks, clock jumps, multi-event quanta, restarts with down time and failing start attempts, directed motifs woven into random steps); conservation invariants at every quiescent point + drain liveness; ddmin-minimised replay files",
    text="Seeded search over schedules and fault sequences of the real server code (rpcserver loop, QPlugin, workq, timers) with the conservation invariant evaluated at every quiescent point and a bounded-liveness drain at the end. Sampling, not proof: a clean batch is evidence over ~10^5 (quick) to ~10^7 (thorough) histories.",
-   note="gevent hub/AsyncResult/Greenlet.kill are real and trusted; TCP is replaced by whole-line fake sockets; Main.run's Handler construction and timer table are mirrored in the harness; only gevent-feasible schedules are generated."),
+   note="gevent hub/AsyncResult/Greenlet.kill are real and trusted; TCP is replaced by whole-line fake sockets; qserve.Main.__init__/run, rpcserver.Server.__init__/run_forever/handle_client run as they are over a stand-in for gevent's StreamServer; only gevent-feasible schedules are generated; a server that does not serve at all is a violation of the running check (no vacuous pass)."),
  "C17": dict(engine="qsworld", category="exploration", design_ref="DESIGN.md 3.4",
    technique="deterministic simulation with an executable reference model: every request/response/timer/disconnect of the real server is stamped in execution order and checked against a small sequential model (eligibility, not-done, priority/FIFO, finality, waiters, idempotent add, counters, TTL bound)",
    text="Histories of the real server are checked operation by operation against the reference model; the cooperative server's execution order is the linearisation order, so the check is linear in the history. Sampling over seeds.",
@@ -36,15 +36,15 @@ CHECKS = {
    text="The restart position is enumerated completely for every sampled history (exhaustive per history); histories themselves are sampled by seed.",
    note="the restart is the graceful save the property states (savedb in the server loop's finally); a torn pickle is outside C18."),
  "C19": dict(engine="qsworld", category="exploration", design_ref="DESIGN.md 3.6",
-   technique="deterministic simulation: real nserve.Application.do_render/do_render_status bound in-process to the simulated queue; the two RPCs of a status poll interleave with workers, timers, kills and TTL drops; oracle from the reference model's snapshots at the instants the server processed them",
+   technique="deterministic simulation: real nserve.dispatch_command -> Application.dispatch -> do_render/do_render_status bound in-process to the simulated queue; the two RPCs of a status poll interleave with workers, timers, kills and TTL drops; oracle from the reference model's snapshots at the instants the server processed them",
    text="Seeded histories of a collection's two jobs with status polls as concurrent simulated clients; every reported state is compared with what the model says the render job's state was when the server answered.",
-   note="HTTP/bottle layer is not run (do_render_status is called directly); qserve side is the same real code as C16."),
+   note="the bottle HTTP server itself is not run (the route function dispatch_command is called with the POST data); qserve side is the same real code as C16; every known (collection, writer) is polled once more at the end of each history."),
  "C11": dict(engine="fetchworld", category="exploration", design_ref="DESIGN.md 4",
    technique="deterministic simulation: the whole fetcher (make_nuwiki) in virtual time against an in-process synthetic MediaWiki with seeded response latencies, stalls, batch/limit knobs; closure oracle computed independently from the synthetic wiki; archive read back with nuwiki.Adapt",
    text="Seeded worlds x metabooks x configurations x latency schedules; each run is a complete fetch whose archive is compared with the closure computed from the synthetic wiki.",
    note="HTTP is replaced at MwApi._send_http_request and the download client; the synthetic wiki implements only the API surface the fetcher uses."),
  "C20": dict(engine="fsfault", category="fault_enumeration", design_ref="DESIGN.md 5",
-   technique="deterministic fault enumeration: each producer runs in a forked child whose file-system calls are counted; for every position k the child is killed (os._exit, user-space buffers really lost) or the call fails with ENOSPC/EIO/short write; the parent inspects the published paths like a reader",
+   technique="deterministic fault enumeration: each producer runs in a forked child whose file-system calls are counted; for every position k the child is killed (SIGKILL, user-space buffers really lost), gets SIGTERM (command mains), or the call fails with ENOSPC/EIO/short write/disk filling up; a second producer may run in the same directory between two calls; the parent inspects the published paths like a reader",
    text="Positions x fault kinds are enumerated completely per scenario; scenarios (sizes, buffer sizes, previous version present/absent) are sampled by seed.",
    note="POSIX rename/replace atomicity on one file system is trusted; process death, not power loss (no fsync model)."),
 }
